@@ -36,6 +36,56 @@ def is_search(t):
     return isinstance(t, tuple) and t and t[0] == 'call' and re.search(r'::binary_search(_by|_by_key)?$', t[1]) is not None
 
 
+def is_position(t):
+    """iter().position(pred): Some(i) = index of the first element satisfying pred"""
+    return isinstance(t, tuple) and t and t[0] == 'call' and re.search(r'Iterator(>)?::position$', t[1]) is not None and len(t[2]) == 2
+
+
+def position_parts(px, st, t):
+    """(vector place iterated, key) of `vec.iter().position(|e| *e == key)`, or None when the call has another shape"""
+    if not is_position(t):
+        return None
+    snap = t[4] if len(t) > 4 else None
+    itv = snap[0] if snap else t[2][0]
+    for _ in range(3):
+        if itv[0] in ('ref', 'cref'):
+            try:
+                itv = px.deref_value(st, itv)
+            except Exception:
+                return None
+    if itv[0] != 'sliceiter':
+        return None
+    owner = models.slice_owner(px, st, itv[1])
+    probe = ('ref', ('T', ('POS', 0), ('e', 'pos', 0)))
+    try:
+        outs = px.call_closure(st.copy(), t[2][1], [probe])
+    except Exception:
+        return None
+    if len(outs) != 1:
+        return None
+    rv = outs[0][1]
+    if not (rv[0] == 'pure' and rv[1] == 'eq' and len(rv[2]) == 2):
+        return None
+
+    def val(v):
+        for _ in range(6):
+            if v[0] in ('ref', 'cref'):
+                try:
+                    v = px.deref_value(outs[0][0], v)
+                except Exception:
+                    break
+            else:
+                break
+        return v
+    a, b = val(rv[2][0]), val(rv[2][1])
+    pv = val(probe)
+    if a == pv:
+        return owner, b
+    if b == pv:
+        return owner, a
+    return None
+
+
 def strip_ref(v):
     while isinstance(v, tuple) and v and v[0] in ('ref', 'cref') and isinstance(v[1], tuple):
         v = v[1]
@@ -511,7 +561,15 @@ def fold_events(px, st, events, place, init, init_empty=True):
             continue
         op = last(name)
         args = ev[2]
-        if op == 'insert' and len(args) >= 3:
+        if op == 'insert' and len(args) >= 3 and ppoint_insert(px, st, events, i, args, place):
+            # insert(partition_point(|e| e < x  or  e <= x), x) on a sorted vector keeps it sorted (an equal element may now be repeated)
+            if state == SD:
+                state = S
+            elif state not in (S,):
+                state = U
+            empty = False
+            why.append('insert@partition_point')
+        elif op == 'insert' and len(args) >= 3:
             si = search_index(args[1])
             ok = False
             if si is not None:
@@ -545,6 +603,44 @@ def fold_events(px, st, events, place, init, init_empty=True):
                 empty = True
             why.append(op)
     return Result(state, empty, why)
+
+
+def ppoint_insert(px, st, events, i, args, place):
+    """args = (vec, idx, x) of Vec::insert: idx is slice::partition_point on the same vector (unmodified in between) with a predicate
+    `|e| e < x` or `|e| e <= x` for the very x that is inserted"""
+    idx = args[1]
+    if not (isinstance(idx, tuple) and idx and idx[0] == 'call' and idx[1].endswith('::partition_point') and len(idx[2]) == 2):
+        return False
+    try:
+        if models.vec_place(px, st, idx[2][0]) != place or mutated_between(px, st, events, idx, i, place):
+            return False
+    except Exception:
+        return False
+    clos = idx[2][1]
+    probe = ('ref', ('T', ('PP', 0), ('e', 'pp', 0)))
+    try:
+        outs = px.call_closure(st.copy(), clos, [probe])
+    except Exception:
+        return False
+    if len(outs) != 1:
+        return False
+    rv = outs[0][1]
+    if not (rv[0] == 'pure' and re.search(r'::(lt|le)$', rv[1]) and len(rv[2]) == 2):
+        return False
+
+    def val(v):
+        for _ in range(6):
+            if v[0] in ('ref', 'cref'):
+                try:
+                    v = px.deref_value(outs[0][0], v)
+                except Exception:
+                    break
+            else:
+                break
+        return v
+    a, b = val(rv[2][0]), val(rv[2][1])
+    x = val(args[2])
+    return a == val(probe) and b == x
 
 
 def mutated_between(px, st, events, call, upto, place):
